@@ -355,7 +355,7 @@ def report(ctx, rejections, meta, jobs):
                                  "job": stdtrace.job_line(dict(job, **({"in": saved} if saved else {}))), "clauses": r["clauses"], "event": ev})
             continue
         what = "std/%s: clauses %s violated at trace line %d (event %s) on input %s [%s], schedule %s" % (
-            m.get("dec"), r["clauses"], r["line"], {k: ev[k] for k in ev if k not in ("stderr_tail",)}, os.path.basename(m.get("input", "?")),
+            m.get("dec"), r["clauses"], r["line"], _short(ev), os.path.basename(m.get("input", "?")),
             m.get("origin"), json.dumps(m.get("class"), sort_keys=True))
         if ev.get("k") == "crash":
             what += "\n" + ev.get("stderr_tail", "")[-1800:]
@@ -363,6 +363,11 @@ def report(ctx, rejections, meta, jobs):
         ctx.violation(what, {"key": key, "decoder": m.get("dec"), "input_saved": saved, "origin": m.get("origin"),
                              "job": stdtrace.job_line(dict(job, **({"in": saved} if saved else {}))), "clauses": r["clauses"], "event": ev})
 
+
+
+def _short(ev):
+    """An event for a message: the recorded token / byte arrays are elided (the replay file keeps them)."""
+    return {k: (v if not (isinstance(v, list) and len(v) > 12) else v[:12] + ["... %d more" % (len(v) - 12)]) for k, v in ev.items() if k != "stderr_tail"}
 
 def replay(ctx, path):
     rep = json.load(open(path))["replay"]
